@@ -168,6 +168,15 @@ def main(argv: List[str]) -> int:
         else:
             rep.violation({k: it[k] for k in it if k != 'tid'}, {'failing_clause': v, 'text': texts[r['tid']], 'observed': r['result'],
                                                                  'renderers': r['obs']})
+    seen = {}
+    for r in recs:
+        it = items[r['tid']]
+        k = '%s bom=%s allow=%s custom=%s' % (it['route'], it['bom'], it['opts']['allow'], it['opts']['custom'])
+        seen[k] = seen.get(k, 0) + 1
+    rep.notes['cases_by_route_and_options'] = dict(sorted(seen.items()))
+    never = [rt for rt in ROUTES + BAD if not any(k.startswith(rt + ' ') for k in seen)]
+    if never or len([k for k in seen if k.split()[0] in ROUTES]) < len(ROUTES) * 8:
+        raise core.Machinery('C12: routes / option combinations never exercised: %s (%d combinations)' % (never, len(seen)))
     rep.notes['routes'] = ROUTES
     rep.notes['refused_sources'] = BAD
     r0 = recs[0]
